@@ -109,7 +109,7 @@ def explore(ctx, res, replay=None):
         v = replay['violation']['source']
         srcs.append((v['files'], v['main'], {'replay': True}))
     else:
-        for f, m in gen_prog.small_programs():
+        for f, m in gen_prog.small_programs() + gen_prog.extra_programs():
             srcs.append((f, m, {}))
         for k in range(n):
             if pid == 'C07':
